@@ -182,6 +182,7 @@ finding("C13-span-in-foreign-source", "C13", [],
  None)
 
 PANIC_FNS = {
+ "postprocess-unwrap": ["fold_sql_query"],
  "transforms-unwrap": ["infer_type_of_special_func"],
  "transforms-lineage-unwrap": ["lineage_or_default", "infer_lineage"],
  "lowering-literal-row-unwrap": ["lower_table_ref"], "lowering-unwrap": ["lower_table_ref"],
@@ -260,6 +261,12 @@ panic_finding("transforms-lineage-unwrap", "prqlc/src/semantic/resolver/transfor
 panic_finding("gen-query-unreachable", "prqlc/src/sql/gen_query.rs", "internal error: entered unreachable code",
  "RQ JSON of a two-relation program in which a transform of the main pipeline was replaced by one the SQL back-end does not expect at that place", "rq_to_sql on an RQ JSON document",
  "`unreachable!()` in the translation of a pipeline to a SELECT: the RQ deserialises but is not one the resolver emits (found by RQ JSON mutation at seed 8).", input_kind="rq-json")
+panic_finding("postprocess-unwrap", "prqlc/src/sql/pq/postprocess.rs", "called `Option::unwrap()` on a `None` value",
+ "RQ JSON with a table reference that names no declared table", "rq_to_sql on an RQ JSON document",
+ "`fold_sql_query` (sort inference over CTEs) unwraps a lookup that a resolver-emitted RQ always satisfies (found by RQ JSON mutation at seed 10).", input_kind="rq-json")
+panic_finding("pq-gen-query-unreachable", "prqlc/src/sql/pq/gen_query.rs", "internal error: entered unreachable code",
+ "RQ JSON whose relation kind was replaced by one `compile_relation` does not expect (e.g. a built-in function relation)", "rq_to_sql on an RQ JSON document",
+ "`unreachable!()` in compile_relation (found by RQ JSON mutation at seed 13).", input_kind="rq-json")
 panic_finding("transforms-unwrap", "prqlc/src/semantic/resolver/transforms.rs", "called `Option::unwrap()` on a `None` value",
  "PL JSON of `let distinct = rel -> (from t = _param.rel | group {t.*} (take 1))` with a span edited", "pl_to_rq on a PL JSON document or compile of a source",
  "`infer_type` unwraps the type of a transform's input / pipeline (`transform_call.input.ty`, a `group` pipeline's body): absent for a PL JSON document with edited nodes (libFuzzer target json_pl) and for `group {f, a} (take -> 1)`, where the pipeline is a lambda (token mutation, seed 7).")
